@@ -30,8 +30,10 @@ DB = {
     (1, 3, 6, 1, 2, 1, 1, 3, 0): ("tt", 424242),
     (1, 3, 6, 1, 2, 1, 1, 5, 0): ("str", b"host"),
     (1, 3, 6, 1, 2, 1, 2, 1, 0): ("int", 3),
+    (1, 3, 6, 1, 2, 1, 4, 20, 0): ("str", bytes(16)),  # e.g. an unset IPv6 address
 }
 FORGED_VALUE = ("str", b"FORGED by the attacker")
+OTHER_ENGINE = b"\x80\x00\x1f\x88\x04other!"
 
 # (label, operation, index of the data exchange whose response is rewritten)
 SEED_OPS = [
@@ -41,6 +43,7 @@ SEED_OPS = [
     ("set", ("set", (1, 3, 6, 1, 2, 1, 1, 5, 0), ("str", b"newname")), 1),
     ("walk@2", ("walk", (1, 3, 6, 1, 2, 1, 1)), 2),
     ("multiget", ("multiget", [(1, 3, 6, 1, 2, 1, 1, 5, 0), (1, 3, 6, 1, 2, 1, 2, 1, 0)]), 1),
+    ("get-zeros", ("get", (1, 3, 6, 1, 2, 1, 4, 20, 0)), 1),
 ]
 LEVELS = [("authNoPriv", "md5"), ("authPriv", "md5"), ("authNoPriv", "sha1"), ("authPriv", "sha1")]
 BUDGET = 0.5
@@ -51,7 +54,8 @@ def seeds(tier):
     for label, op, at in SEED_OPS:
         for level, method in LEVELS:
             if tier == "quick" and not (
-                (label in ("get", "set") )
+                (label in ("get", "set"))
+                or (label == "get-zeros" and method == "md5")
                 or (label == "walk@2" and (level, method) == ("authPriv", "sha1"))
                 or (label == "bulkget" and (level, method) == ("authNoPriv", "md5"))
             ):
@@ -73,6 +77,12 @@ class Mitm:
         world.reset_plugins()
         self.client, self.sender, self.agent = world.make_v3(DB, self.seed["level"], self.seed["method"])
         self.user = list(self.agent.users.values())[0]
+        # a second client of the same process and user, talking to another
+        # device (engine): what it learns must not help a forger here
+        other_user, other_creds = world.v3_user(self.seed["level"], self.seed["method"])
+        self.other_agent = ragent.V3Agent(DB, [other_user], engine_id=OTHER_ENGINE, clock=lambda: CLOCK.now)
+        self.other_client, _ = world.make_client(other_creds, self.other_agent.handle)
+        ops.run_op(self.other_client, ("get", (1, 3, 6, 1, 2, 1, 1, 5, 0)))
         self.rewrite = None
         self.k = 0
         self.last = None
@@ -202,7 +212,7 @@ def forgeries(m):
 
     Z12 = b"\x00" * 12
     other_pw_key = usm.localise(method, b"another-password", eid)
-    other_eid = b"\x80\x00\x1f\x88\x04other!"
+    other_eid = OTHER_ENGINE
     priv_key = user.priv_key(eid) if user.priv else None
 
     def F(name, **kw):
@@ -227,6 +237,11 @@ def forgeries(m):
         F("priv-user-plaintext-flags1-foreign-key", flags=1, auth=Z12, sign_with=other_pw_key)
         F("priv-user-flags3-encrypted-with-foreign-key-zero-digest", flags=3, auth=Z12, encrypt_with=usm.localise(method, b"another-priv-password", eid))
         F("priv-user-flags2-encrypted-own-guess", flags=2, encrypt_with=usm.localise(method, b"another-priv-password", eid))
+    # "privacy without authentication" is not a security level at all
+    F("flags2-plaintext-no-digest", flags=2)
+    F("flags6-plaintext-no-digest", flags=6)
+    F("flags2-plaintext-zero-digest", flags=2, auth=Z12)
+    out.append(("zero-run-overwritten-with-the-messages-own-digest", _digest_into_zero_run))
     # unauthenticated Reports
     F("report-usmStatsWrongDigests", flags=0, pdu_tag=snmp.PDU_REPORT, varbinds=[(usm.USM_STATS["wrongDigests"], ("c32", 1))])
     F("report-usmStatsNotInTimeWindows", flags=0, pdu_tag=snmp.PDU_REPORT, varbinds=[(usm.USM_STATS["notInTimeWindows"], ("c32", 1))])
@@ -246,6 +261,20 @@ def forgeries(m):
     out.append(("authentic-digest-zeroed", lambda req, resp, entry: _zero_digest(resp)))
     out.append(("authentic-replayed-previous-response", None))
     return [f for f in out if f[1] is not None]
+
+
+def _digest_into_zero_run(req, resp, entry):
+    """an authentic message whose payload carries >= 12 zero octets: the
+    attacker overwrites 12 of them with the digest found in the same message"""
+    msg = snmp.dec_message(resp)
+    digest = msg["usm"]["auth"]
+    off = usm.digest_offset(msg)
+    if len(digest) != 12:
+        return resp[:-1] + bytes([resp[-1] ^ 1])
+    pos = resp.find(b"\x00" * 12, off + 12)
+    if pos < 0:
+        return resp[:-1] + bytes([resp[-1] ^ 1])  # no such run: plain corruption
+    return resp[:pos] + digest + resp[pos + 12 :]
 
 
 def _flags_offset(data):
